@@ -136,7 +136,91 @@ pub fn check_prefix<R: std::io::Read + std::io::Seek + Clone>(
     if let Some(d) = rd::first_diff(&got, &rev) {
         fail!(format!("{sigp}:rev"), "reverse prefix {} over {} entries: {}", brief(p), entries.len(), d);
     }
+    // a clone taken mid-iteration and kept alive
+    if want.len() >= 2 {
+        let mut it = rd::guard("into_prefix_iter", || reader.clone().into_prefix_iter(p.to_vec()))?;
+        let _ = rd::guard("PrefixIter::next", || it.next().map(rd::own))?;
+        let mut cl = it.clone();
+        let (mut a, mut b) = (vec![], vec![]);
+        while let Some(e) = rd::guard("PrefixIter::next", || it.next().map(rd::own))? {
+            a.push(e);
+            if a.len() > entries.len() {
+                break;
+            }
+        }
+        while let Some(e) = rd::guard("PrefixIter::next", || cl.next().map(rd::own))? {
+            b.push(e);
+            if b.len() > entries.len() {
+                break;
+            }
+        }
+        if a != want[1..] || b != want[1..] {
+            fail!(format!("{sigp}:clone"), "prefix {}: after cloning the iterator mid-way the original yields {} more entries and the clone {} (expected {})", brief(p), a.len(), b.len(), want.len() - 1);
+        }
+        let mut it = rd::guard("into_rev_prefix_iter", || reader.clone().into_rev_prefix_iter(p.to_vec()))?;
+        let _ = rd::guard("RevPrefixIter::next", || it.next().map(rd::own))?;
+        let mut cl = it.clone();
+        let (mut a, mut b) = (vec![], vec![]);
+        while let Some(e) = rd::guard("RevPrefixIter::next", || it.next().map(rd::own))? {
+            a.push(e);
+            if a.len() > entries.len() {
+                break;
+            }
+        }
+        while let Some(e) = rd::guard("RevPrefixIter::next", || cl.next().map(rd::own))? {
+            b.push(e);
+            if b.len() > entries.len() {
+                break;
+            }
+        }
+        if a != rev[1..] || b != rev[1..] {
+            fail!(format!("{sigp}:clone"), "reverse prefix {}: after cloning the iterator mid-way the original yields {} more entries and the clone {} (expected {})", brief(p), a.len(), b.len(), rev.len() - 1);
+        }
+    }
     Ok(want)
+}
+
+/// One data block of more than 4 GiB: two 2 GiB values followed by ten small entries whose in-block offsets lie beyond
+/// 2^32. Prefix iteration (both directions) must still find them. Ok(false) = skipped (less than 30 GiB free).
+pub fn giant_block() -> Check<bool> {
+    let avail_kib: u64 = std::fs::read_to_string("/proc/meminfo")
+        .ok()
+        .and_then(|s| s.lines().find(|l| l.starts_with("MemAvailable:")).and_then(|l| l.split_whitespace().nth(1).and_then(|v| v.parse().ok())))
+        .unwrap_or(0);
+    if avail_kib < 30 * 1024 * 1024 {
+        return Ok(false);
+    }
+    let r = crate::common::catch(|| -> Check<()> {
+        let big = vec![0x5au8; 1usize << 31];
+        let mut w = grenad::Writer::builder();
+        w.block_size(6usize << 30);
+        let mut w = w.memory();
+        let mut small: Entries = Vec::new();
+        let io = |e: std::io::Error| crate::common::Fail::new("c05:giant:io", format!("writer error: {e}"));
+        w.insert(b"a", &big).map_err(io)?;
+        w.insert(b"b", &big).map_err(io)?;
+        for i in 0..10u8 {
+            let k = vec![b'c', b'0' + i];
+            let v = vec![i; 3];
+            w.insert(&k, &v).map_err(io)?;
+            small.push((k, v));
+        }
+        drop(big);
+        let bytes = w.into_inner().map_err(io)?;
+        let reader = rd::open(&bytes)?;
+        // the model only needs the small entries: the two giants match none of the prefixes below
+        let mut model: Entries = vec![(b"a".to_vec(), vec![]), (b"b".to_vec(), vec![])];
+        model.extend(small.iter().cloned());
+        for p in [&b"c"[..], &b"c1"[..], &b"c9"[..], &b"d"[..]] {
+            check_prefix(&reader, &model, p, "c05:giant")?;
+        }
+        Ok(())
+    });
+    match r {
+        Ok(Ok(())) => Ok(true),
+        Ok(Err(f)) => Err(f),
+        Err(p) => Err(crate::common::Fail::new("c05:giant:panic", format!("block larger than 4 GiB: panic {p}"))),
+    }
 }
 
 impl Prop for C05 {
@@ -180,7 +264,23 @@ impl Prop for C05 {
 
     fn extra(&self, tier: Tier, _seed: u64, ctx: &crate::runner::ExtraCtx) -> crate::runner::ExtraOut {
         // bounded-exhaustive enumeration: every key set over a tiny alphabet x every probe over it
-        crate::smallscope::prefixes(tier, ctx.threads)
+        let mut out = crate::smallscope::prefixes(tier, ctx.threads);
+        // thorough: one block larger than 4 GiB (in-block offsets beyond 2^32), when memory allows
+        if tier == Tier::Thorough && out.violations.is_empty() && std::env::var("VERIF_NO_GIANT").is_err() {
+            match giant_block() {
+                Ok(true) => {
+                    out.evaluations += 4;
+                    out.nontrivial += 4;
+                    out.counters.insert("giant_block_checked".into(), 1);
+                    out.samples.push(json!({"kind": "giant-block", "block_bytes": "> 4 GiB", "prefixes": ["c", "c1", "b", ""]}));
+                }
+                Ok(false) => {
+                    out.counters.insert("giant_block_skipped_low_memory".into(), 1);
+                }
+                Err(f) => out.violations.push((f, json!("GiantBlock"))),
+            }
+        }
+        out
     }
 
     fn run(&self, case: &Case, obs: &mut Obs) -> Check {
